@@ -954,10 +954,22 @@ theorem gen_table_recoverAll (cfg : Cfg) (L : Nat → Option Status) (s : State)
     T.firstRow Gen.Sem.recoverAll (T.envErr true) = some [.listAll, .forEach, .retNil] :=
   ⟨T.raLoopT_eq cfg L items s, T.recoverAll_outer.1, T.recoverAll_outer.2⟩
 
+/-- `localStatus` — the listing `StatusAll` and `RecoverAll` start from — per pin of the pinset: meta ↦ sharded, remote ↦ remote, present among
+    the daemon's pins OF THE PIN'S OWN MODE ↦ the daemon's entry, else unexpectedly_unpinned: for a cid without table entry that is the
+    model's `statusAllOf`, on every state; meta / remote entries are left out without `incExtra` or when the filter does not match. -/
+theorem gen_table_localStatus (s : State) (c : Nat) (p : PinSpec) (hc : s.cur c = none) (hs : s.shared c = some p)
+    (k : Kind) (b : Bool) (fm : Status → Bool) (hk : k ≠ .here) :
+    T.localT Gen.Sem.localBody p.kind (heldAs s c p.mode) true (fun _ => true) = some (statusAllOf s c) ∧
+    T.localT Gen.Sem.localBody k b false fm = some none ∧ T.localT Gen.Sem.localBody k b true (fun _ => false) = some none :=
+  ⟨T.localT_eq s c p hc hs, (T.localT_skips k b fm hk).1, (T.localT_skips k b fm hk).2⟩
+
 theorem gen_table_known_c :
     (T.known Gen.Sem.enqueue && T.known Gen.Sem.track && T.known Gen.Sem.untrack && T.known Gen.Sem.recover &&
-     T.known Gen.Sem.status && T.known Gen.Sem.addError && T.known Gen.Sem.recoverAll && T.known Gen.Sem.recoverAllBody) = true :=
+     T.known Gen.Sem.status && T.known Gen.Sem.addError && T.known Gen.Sem.recoverAll && T.known Gen.Sem.recoverAllBody &&
+     T.known Gen.Sem.localBody) = true :=
   T.tables_known_c
+
+example : T.localT Gen.Sem.localBody .here false true (fun _ => true) = some (some .unexpectedlyUnpinned) := by decide
 
 example : T.statusTbl Gen.Sem.status k06Run true 0 = some .pinError := by decide
 example : T.statusTbl Gen.Sem.status k06Run false 0 = some .clusterError := by decide
